@@ -106,8 +106,11 @@ func runCase(t *testing.T, run *core.Run, name string, idx int, rng *rand.Rand) 
 			}
 			return uint64(100_000 + r.Intn(3_000_000))
 		},
-		Compound:   func(i int) bool { return i%2 == 0 },
-		Committees: func(i int, r *rand.Rand) []uint64 { return [][]uint64{{1}, {1, 2}, {1, 3}, {1, 2, 3}}[r.Intn(4)] },
+		// in two thirds of the chains the anchor does not dwarf the others, so committees 2 and 3 reach the subsidy threshold
+		// and the block mint is split over several committees (division remainders)
+		AnchorStake: []uint64{0, 2_500_000, 900_000}[idx%3],
+		Compound:    func(i int) bool { return i%2 == 0 },
+		Committees:  func(i int, r *rand.Rand) []uint64 { return [][]uint64{{1}, {1, 2}, {1, 3}, {1, 2, 3}}[r.Intn(4)] },
 		Tweak: func(c *lib.Config) {
 			c.BlocksPerHalvening = halv
 			if idx%4 == 3 {
@@ -120,6 +123,7 @@ func runCase(t *testing.T, run *core.Run, name string, idx int, rng *rand.Rand) 
 			p.Validator.NonSignSlashPercentage = []uint64{1, 10, 100}[r.Intn(3)]
 			p.Validator.MaxSlashPerCommittee = []uint64{15, 100}[r.Intn(2)]
 			p.Validator.UnstakingBlocks, p.Validator.MaxPauseBlocks = 2, 3
+			p.Validator.StakePercentForSubsidizedCommittee = []uint64{1, 10, 33}[r.Intn(3)]
 		},
 		Weights: map[string]int{"send": 15, "send-edge": 12, "stake": 8, "edit-stake": 8, "unstake": 6, "pause": 4, "unpause": 3, "subsidy": 8, "invalid": 3, "change-param": 5, "dao-transfer": 8},
 	}
@@ -204,6 +208,13 @@ func runCase(t *testing.T, run *core.Run, name string, idx int, rng *rand.Rand) 
 			}
 		}
 		maxRemainder.Add(maxRemainder, created)
+		// the fees of this block's transactions land in the own committee's reward pool before it is distributed
+		for _, tx := range rec.Block.Transactions {
+			t2 := new(lib.Transaction)
+			if lib.Unmarshal(tx, t2) == nil {
+				maxRemainder.Add(maxRemainder, new(big.Int).SetUint64(t2.Fee))
+			}
+		}
 		// subsidies of this block also land in reward pools
 		for _, tx := range rec.Block.Transactions {
 			if ti, ok := byHash[hashOf(tx)]; ok && ti.Kind == "subsidy" {
@@ -226,7 +237,8 @@ func runCase(t *testing.T, run *core.Run, name string, idx int, rng *rand.Rand) 
 		}
 		limit := new(big.Int).Add(stakeDrop, maxRemainder)
 		if burned.Cmp(limit) > 0 {
-			run.Violation("supply-destroyed-beyond-burns", "^"+name+"$", map[string]any{"case": name, "height": h, "burned": burned.String(), "slash_events": slashed, "stake_decrease": stakeDrop.String(), "max_reward_remainder": maxRemainder.String(), "history_tail": tail(history, 40)})
+			run.Violation("supply-destroyed-beyond-burns", "^"+name+"$", map[string]any{"case": name, "height": h, "burned": burned.String(), "slash_events": slashed, "stake_decrease": stakeDrop.String(), "max_reward_remainder": maxRemainder.String(), "history_tail": tail(history, 40),
+				"pools_before": fmt.Sprint(prev.poolByID), "pools_after": fmt.Sprint(cur.poolByID), "scheduled_mint": mint, "dao_mints": daoMint, "delta_total": delta.String()})
 			return
 		}
 		if burned.Sign() > 0 {
